@@ -817,7 +817,17 @@ class QvmCpu:
                       expected=a.type,
                       got=b.type)
 
-        result = a.value ** b.value
+        try:
+            result = a.value ** b.value
+        except OverflowError:
+            # the result does not fit in a float
+            self.trap(TrapCode.INVALID_CELL_VALUE,
+                      type=a.type,
+                      value='overflow')
+        if isinstance(result, complex):
+            # negative base with a fractional exponent
+            self.trap(TrapCode.INVALID_OPERAND_VALUE,
+                      desc='Result of exponentiation is not a real number')
         self.push(a.type, result)
 
     def _exec_frame(self, params_size, local_vars_size):
